@@ -882,6 +882,7 @@ async function handle(req) {
   }
 }
 
+let __reqs = 0;
 const rl = readline.createInterface({ input: process.stdin, crlfDelay: Infinity });
 console.log(JSON.stringify({ ready: true, node: process.version }));
 for await (const line of rl) {
@@ -901,5 +902,9 @@ for await (const line of rl) {
   }
   resp.id = req.id;
   process.stdout.write(JSON.stringify(resp) + "\n");
+  // coverage runs (tools/jscov.py): the harness kills its workers, so the counters are flushed on the way
+  if (process.env.NODE_V8_COVERAGE && ++__reqs % 150 === 0) {
+    try { (await import("node:v8")).takeCoverage(); } catch {}
+  }
 }
 try { fs.rmSync(MYDIR, { recursive: true, force: true }); } catch {}
